@@ -184,6 +184,14 @@ def make_scenarios(prop, tier, seed):
         for t in gen.c06_tree_stream(seed, tier):
             t["props"] = [prop]
             out.append(t)
+    if prop == "C17":
+        # inconsistent initial placements (a listed job located elsewhere, a listed job that does not
+        # exist) must not compile into a state with a duplicated or phantom job
+        for i in range(n // 8):
+            m = gen.gen_malformed(seed * 6007 + i, ("init-store-foreign-job", "init-store-unknown-job")[i % 2])
+            if m is not None:
+                m["props"] = [prop]
+                out.append(m)
     if prop == "C16":
         # the malformed stream: one defect per document, every class in turn
         for i in range(n // 2):
